@@ -203,6 +203,8 @@ struct RecCipher {
     id: u32,
     key: [u8; 32],
     keyset: bool,
+    /// the cipher defines its own REKEY (spec 4.2 allows that): k' = SHA-256("verif-rekey" || k)
+    custom_rekey: bool,
     ctl: Arc<Ctl>,
 }
 
@@ -260,6 +262,18 @@ impl Cipher for RecCipher {
         r
     }
     fn rekey(&mut self) {
+        if self.custom_rekey {
+            let old = self.keystr();
+            let mut m = b"verif-rekey".to_vec();
+            m.extend_from_slice(&self.key);
+            let nk = crate::util::sha256(&m);
+            self.inner.set(&nk);
+            self.key = nk;
+            if self.ctl.rec_c {
+                self.ctl.push(format!("  c rekey obj=c{} old={} new={} custom=1", self.id, old, self.keystr()));
+            }
+            return;
+        }
         // what REKEY(k) is for the key the wrapper shadows, computed without side effects
         let mut buf = [0_u8; 48];
         let old = self.keystr();
@@ -286,6 +300,7 @@ pub struct RecResolver {
     pub ctl: Arc<Ctl>,
     pub rng: RngMode,
     pub hide: u8,
+    pub custom_rekey: bool,
 }
 
 impl CryptoResolver for RecResolver {
@@ -332,6 +347,7 @@ impl CryptoResolver for RecResolver {
             id: self.ctl.obj(),
             key: [0; 32],
             keyset: false,
+            custom_rekey: self.custom_rekey,
             ctl: self.ctl.clone(),
         }))
     }
@@ -425,9 +441,14 @@ pub fn base_resolver(spec: &str) -> Result<(BoxedCryptoResolver, u8), String> {
     Ok((r, hide))
 }
 
+/// a trailing `+rk` gives every cipher of the resolver its own REKEY function (see RecCipher)
 pub fn make_resolver(spec: &str, ctl: Arc<Ctl>, rng: RngMode) -> Result<BoxedCryptoResolver, String> {
+    let (spec, custom_rekey) = match spec.strip_suffix("+rk") {
+        Some(s) => (s, true),
+        None => (spec, false),
+    };
     let (inner, hide) = base_resolver(spec)?;
-    Ok(Box::new(RecResolver { inner, ctl, rng, hide }))
+    Ok(Box::new(RecResolver { inner, ctl, rng, hide, custom_rekey }))
 }
 
 // ---------------------------------------------------------------- stubs (C20 truth table)
